@@ -99,6 +99,9 @@ def run_kind(prog, res, kind):
             if name == "camera_get_frame" and slot == "get_frame" and val != OK and st.get(G_STARTED):
                 model.report(it, "HAL-FAIL-STOPS", "camera_get_frame|not-stopped",
                              "camera_get_frame: the driver's get_frame() failed on a started camera and the wrapper returns without the driver's stop() having been called; the HAL state is no longer Running, so no later stop reaches the driver")
+            if name == "camera_set" and slot == "set" and val != OK and st.get(G_STARTED):
+                model.report(it, "HAL-FAIL-STOPS", "camera_set|not-stopped",
+                             "camera_set: the driver rejected the settings of a started camera and the wrapper returns without the driver's stop() having been called; the HAL state is no longer Running, so no later stop reaches the driver")
             if name == "camera_stop" and slot == "stop" and state[1] == RUN:
                 bad("still-running", "camera_stop: the driver's stop() was called but the HAL still reports Running")
             if name == "camera_set" and slot in ("set", "stop"):
@@ -106,6 +109,23 @@ def run_kind(prog, res, kind):
                     bad("fail-running", "camera_set: configuration failed but the HAL still reports Running")
                 if slot == "set" and val != OK and state[1] == RUN:
                     bad("fail", "camera_set: the driver rejected the settings but the HAL still reports Running")
+                AWAIT, ARMED = S["DeviceState_AwaitingConfiguration"], S["DeviceState_Armed"]
+                if slot == "set" and val == OK:
+                    want = RUN if before == RUN else ARMED
+                    if state[1] != want:
+                        bad("ok-state", "camera_set: the driver accepted the settings on a device that was %s, but the HAL holds %s (expected %s): "
+                            "a running camera must stay Running (else it is started twice), any other becomes Armed" % (before, state[1], want))
+                if (slot == "stop" or (slot == "set" and val != OK)) and state[1] != AWAIT:
+                    bad("fail-state", "camera_set: the settings were rejected but the HAL holds %s instead of AwaitingConfiguration" % (state[1],))
+            AWAIT, ARMED = S["DeviceState_AwaitingConfiguration"], S["DeviceState_Armed"]
+            if name == "camera_start" and slot == "start" and val != OK and state[1] != AWAIT:
+                bad("err-state", "camera_start: the driver's start() failed but the HAL holds %s instead of AwaitingConfiguration" % (state[1],))
+            if name == "camera_stop" and slot == "stop":
+                want = ARMED if val == OK else AWAIT
+                if state[1] != want:
+                    bad("state", "camera_stop: the driver's stop() answered %s but the HAL holds %s (expected %s)" % (val, state[1], want))
+            if name == "camera_get_frame" and slot in ("get_frame", "stop") and not (slot == "get_frame" and val == OK) and state[1] != AWAIT:
+                bad("fail-state", "camera_get_frame: the frame call failed but the HAL holds %s instead of AwaitingConfiguration" % (state[1],))
         else:
             if name == "storage_start" and slot == "start":
                 if state[1] != val:
@@ -238,8 +258,54 @@ def run(ctx, res):
             for x in ir.walk(c):
                 if x.get("k") == "mem" and x.get("rec") == kind:
                     tested.add(x["f"])
+        succ = [(b.id, i) for b, i, st_ in f.all_stmts() if st_.get("k") == "ret" and "e" in st_ and not ir.is_const(st_["e"], 0)]
+
+        def holds_edge(match):
+            """edge predicate: the condition (modulo !, ==, !=) establishes `match(operand)` on this edge"""
+            def pred(cn, lab, blk):
+                c0 = ir.strip(cn)
+                neg = False
+                while isinstance(c0, dict) and c0.get("k") == "un" and c0.get("op") == "!":
+                    neg = not neg
+                    c0 = ir.strip(c0["e"])
+                if isinstance(c0, dict) and c0.get("k") == "bin" and c0.get("op") in ("==", "!="):
+                    l, r = ir.strip(c0["l"]), ir.strip(c0["r"])
+                    for a, b_ in ((l, r), (r, l)):
+                        m = match(a, b_)
+                        if m is not None:
+                            on_true = ((c0["op"] == "==") == m) != neg
+                            return (lab == "true") == on_true
+                    return False
+                m = match(c0, None)
+                if m is not None:
+                    return (lab == "true") == (not neg)
+                return False
+            return pred
+
+        def slot_nonnull(sname):
+            def match(a, other):
+                if isinstance(a, dict) and a.get("k") == "mem" and a.get("rec") == kind and a.get("f") == sname:
+                    if other is None:
+                        return True        # bare `slot`: truthy means non-null
+                    if ir.is_const(other, 0):
+                        return False       # `slot == 0` is the null test: non-null holds where it is false
+                return None
+            return match
+        kind_enum = "DeviceKind_%s" % kind
+
+        def kind_is(a, other):
+            if isinstance(a, dict) and a.get("k") == "mem" and a.get("f") == "kind" and isinstance(other, dict) and other.get("e") == kind_enum:
+                return True
+            return None
+        okk = bool(succ) and all(paths.edge_dominated(f, p, holds_edge(kind_is))[0] for p in succ)
+        inst = "%s_open returns a device only for an identifier of kind %s" % (kind.lower(), kind_enum)
+        if okk:
+            res.oblige("T-SLOTS", inst, True, "dominated by identifier->kind == %s" % kind_enum, f.loc())
+        else:
+            res.fail("T-SLOTS", inst, "T-SLOTS|%s|kind" % kind, f.loc(),
+                     "%s_open can return a device for an identifier of another kind: containerof() then reinterprets a different device type as struct %s" % (kind.lower(), kind))
         for s in slots:
-            ok = s in tested
+            ok = s in tested and bool(succ) and all(paths.edge_dominated(f, p, holds_edge(slot_nonnull(s)))[0] for p in succ)
             inst = "%s_open checks %s" % (kind.lower(), s)
             if ok:
                 res.oblige("T-SLOTS", inst, True, "slot tested before the device is returned", f.loc())
@@ -247,4 +313,4 @@ def run(ctx, res):
                 res.fail("T-SLOTS", inst, "T-SLOTS|%s|%s" % (kind, s), f.loc(),
                          "%s_open returns a device without checking that its %s slot is non-NULL; the wrapper calls it unconditionally" % (kind.lower(), s))
     res.require_min("HAL-WRAPPER", 17)
-    res.require_min("T-SLOTS", 12)
+    res.require_min("T-SLOTS", 14)
